@@ -444,6 +444,42 @@ func (eng *Engine) solveAll(results []*FuncResult, cfg *SolverCfg, filter func(o
 			j.o.solver = "simplifier"
 			continue
 		}
+		if len(j.o.parts) > 1 {
+			// a postcondition over several return statements: one query per return (all must be
+			// discharged); the first part that is not discharged decides the outcome
+			var bodies []string
+			var subs []*Obligation
+			for k, p := range j.o.parts {
+				sub := *j.o
+				sub.parts = nil
+				sub.goal = p
+				sub.name = fmt.Sprintf("%s.ret%d", j.o.name, k+1)
+				bodies = append(bodies, eng.buildScript(j.fc, &sub))
+				s := sub
+				subs = append(subs, &s)
+			}
+			wg.Add(1)
+			sem <- struct{}{}
+			go func() {
+				defer wg.Done()
+				defer func() { <-sem }()
+				t0 := time.Now()
+				j.o.status = "discharged"
+				for k, sub := range subs {
+					if sub.goal == True {
+						continue
+					}
+					eng.solve(bodies[k], sub, cfg)
+					j.o.solver = sub.solver
+					if sub.status != "discharged" {
+						j.o.status, j.o.output, j.o.model, j.o.smt = sub.status, sub.output, sub.model, sub.smt
+						break
+					}
+				}
+				j.o.secs = time.Since(t0).Seconds()
+			}()
+			continue
+		}
 		body := eng.buildScript(j.fc, j.o)
 		wg.Add(1)
 		sem <- struct{}{}
